@@ -345,6 +345,49 @@ def ex_parsefacts():
 EXTRACTORS["ParseFacts"] = ex_parsefacts
 
 
+def ex_parselevels():
+    """ParseErrorKind: variant order (codes start at 0x10001) and the `level()` table; the position-update code shapes"""
+    src = _read("glass-easel-template-compiler/src/parse/mod.rs")
+    m = re.search(r"pub enum ParseErrorKind \{(.*?)\n\}", src, re.S)
+    if not m:
+        raise core.BrokenTie("extract:ParseErrorKind", "pattern not found")
+    variants = [v.split("=")[0].strip() for v in m.group(1).split(",") if v.strip()]
+    first = re.search(r"UnexpectedCharacter\s*=\s*0x([0-9a-fA-F]+)", m.group(1))
+    if not first or not all(re.fullmatch(r"[A-Za-z]+", v) for v in variants):
+        raise core.BrokenTie("extract:ParseErrorKind", "variant list not understood")
+    m2 = re.search(r"pub fn level\(&self\) -> ParseErrorLevel \{\s*match self \{(.*?)\n        \}", src, re.S)
+    if not m2:
+        raise core.BrokenTie("extract:ParseErrorKind::level", "pattern not found")
+    arms = re.findall(r"Self::(\w+)\s*=>\s*ParseErrorLevel::(\w+),", m2.group(1))
+    if len(arms) != len(variants) or [a for a, _ in arms] != variants:
+        raise core.BrokenTie("extract:ParseErrorKind::level", "arms do not cover the variants one to one")
+    m3 = re.search(r"pub enum ParseErrorLevel \{(.*?)\n\}", src, re.S)
+    lv = [x.split("=")[0].strip() for x in re.sub(r"///[^\n]*", "", m3.group(1)).split(",") if x.strip()] if m3 else []
+    if lv != ["Note", "Warn", "Error", "Fatal"] or "Note = 1" not in m3.group(1):
+        raise core.BrokenTie("extract:ParseErrorLevel", "levels are not Note=1 < Warn < Error < Fatal")
+    num = {"Note": 1, "Warn": 2, "Error": 3, "Fatal": 4}
+    norm = re.sub(r"\s+", " ", src)
+    # the three places that move the position: each one is `\n` -> (line+1, 0), otherwise col += UTF-16 length
+    next_ok = "if ret == '\\n' { self.line += 1; self.utf16_col = 0; } else { self.utf16_col += ret.encode_utf16(&mut [0; 2]).len() as u32; }" in norm
+    ws_ok = "if c == '\\n' { self.line += 1; self.utf16_col = 0; } else { self.utf16_col += c.encode_utf16(&mut [0; 2]).len() as u32; }" in norm
+    skip_ok = ("self.line += line_wrap_count as u32; if line_wrap_count > 0 { let last_line_start = skipped.rfind('\\n').unwrap() + 1; "
+               "self.utf16_col = skipped[last_line_start..].encode_utf16().count() as u32; } else { self.utf16_col += skipped.encode_utf16().count() as u32; }") in norm
+    restore_ok = "if ret.is_none() { self.cur_index = prev; self.line = prev_line; self.utf16_col = prev_utf16_col; }" in norm
+    rows = ",\n  ".join('("%s", %d)' % (a, num[l]) for a, l in arms)
+    return ("/-! GENERATED from /repo/glass-easel-template-compiler/src/parse/mod.rs by checklib/extractors.py — do not edit. -/\n"
+            "namespace GE.Extracted\n"
+            f"def parseErrorFirstCode : Nat := 0x{first.group(1)}\n"
+            "/-- `ParseErrorKind::level` in variant order (1 Note, 2 Warn, 3 Error, 4 Fatal) -/\n"
+            f"def parseErrorLevels : List (String × Nat) := [\n  {rows}]\n"
+            "/-- `next`, `skip_whitespace` and `skip_bytes` have the modelled position updates; `try_parse` restores index, line and column together -/\n"
+            f"def positionUpdateShapes : Bool := {'true' if (next_ok and ws_ok and skip_ok) else 'false'}\n"
+            f"def tryParseRestoresAll : Bool := {'true' if restore_ok else 'false'}\n"
+            "end GE.Extracted\n")
+
+
+EXTRACTORS["ParseLevels"] = ex_parselevels
+
+
 def ex_csstables():
     """cssparser's separator table (by running it) and the string tables of the stylesheet compiler"""
     try:
